@@ -163,6 +163,9 @@ def corpus ():
   add("eth_llc_ui", r_eth8023(b'\x42\x42\x03' + pattern(35)), "ethernet/llc")       # STP-like
   add("eth_llc_iframe", r_eth8023(b'\xf0\xf0\x10\x12' + pay), "ethernet/llc(2-byte control)")
   add("eth_snap_cdp", r_eth8023(b'\xaa\xaa\x03\x00\x00\x0c\x20\x00' + pay), "ethernet/llc+snap/raw")
+  # SNAP behind a two-byte (I/S format) control field: the SNAP header starts one byte later
+  add("eth_snap_iformat", r_eth8023(b'\xaa\xaa\x10\x12\x00\x00\x0c\x20\x00' + pay), "ethernet/llc(2-byte control)+snap/raw")
+  add("eth_snap_sformat", r_eth8023(b'\xaa\xaa\x01\x02\x00\x00\x0c\x20\x00' + pay), "ethernet/llc(2-byte control)+snap/raw")
   add("eth_snap_ipv4_udp", r_eth8023(b'\xaa\xaa\x03\x00\x00\x00\x08\x00' + r_ipv4(u4(pay), 17)),
       "ethernet/llc+snap(oui 0)/ipv4/udp")
   add("vlan_ipv4_udp", r_eth(r_vlan(r_ipv4(u4(pay), 17), 0x0800), 0x8100), "ethernet/vlan/ipv4/udp")
